@@ -30,7 +30,7 @@ ASSUMPTIONS = [
     'FermiHubbardModel parameters are valid (constructor ValueErrors are not explored)',
 ]
 OPEN_STATEMENTS = [
-    'hubbard_sound (operator-level: the Model output of fermi_hubbard / bose_hubbard / mean_field_dwave / FermiHubbardModel denotes the docstring formula for ALL sizes) is not a theorem: covered by the docstring / spec.eq oracles on the explored lattices; proved for all sizes: the bond enumerations equal the Spec edge set (bonds_spec, dwave_bonds_spec, lattice_neighbors_spec, diagonal_neighbors_spec, neighbors_ordered_perm, diagonal_ordered_perm, hubbard_generators_agree_bonds), every generated term has zero charge for N (and S_z where the model conserves it) and zero-charge terms preserve the Spec weight of basis states (term_charge_sound), the grid index bijection',
+    'hubbard_sound is proved for the spinless fermi_hubbard Model for ALL lattice sizes (spinless_hubbard_sound / spinless_hubbard_sound_edges: den phi of the site-loop fold = docstring formula summed over the Spec edge set) under the hypotheses ExactSum (every += in the exact regime; holds for the generated dyadic couplings, checked by the correspondence run, not proved in general), real hopping amplitude, phi(n_i n_j) = phi(n_j n_i); the spinful model, bose_hubbard, mean_field_dwave, FermiHubbardModel and the particle-hole docstring form are still covered by the docstring / spec.eq oracles only; also proved for all sizes: the bond enumerations equal the Spec edge set, every generated term has zero charge for N (and S_z where conserved) and zero-charge terms preserve the Spec weight of basis states, the grid index bijection',
     'hermitian_generators is covered by the spec.eq oracle only',
     'onsite edge type and spin_pairs_iter: correspondence + Spec oracle only',
     'bose_hubbard / mean_field_dwave / FermiHubbardModel: S_z conservation of FermiHubbardModel is covered by the spec.eq oracle only',
